@@ -44,4 +44,57 @@ theorem policy_as_modelled :
        "return true"] := by
   constructor <;> decide +kernel
 
+/-! ### non-vacuity -/
+section NonVacuity
+set_option linter.defProp false
+
+/-- witness for `fold_length`: an Origin host in mixed case folds to the request Host -/
+def witFold_mixed : equalASCIIFold (strBytes "Example.COM:8080") (strBytes "example.com:8080") = true := by decide +kernel
+/-- non-vacuity of `fold_length`: the hypothesis holds for "Example.COM:8080" / "example.com:8080", and the theorem applies -/
+example : (strBytes "Example.COM:8080").length = (strBytes "example.com:8080").length :=
+  fold_length _ _ witFold_mixed
+/-- the hypothesis of `fold_length` is not automatic: a suffix look-alike is rejected -/
+example : equalASCIIFold (strBytes "example.com.evil.org") (strBytes "example.com") = false := by decide +kernel
+
+/-- a browser request to Host example.com:8080 whose Origin is the same site, host in mixed case -/
+def witReqSame : Req :=
+  { method := strBytes "GET", host := strBytes "example.com:8080",
+    hdr := [(strBytes "Connection", [strBytes "keep-alive, Upgrade"]), (strBytes "Upgrade", [strBytes "websocket"]),
+            (strBytes "Origin", [strBytes "http://Example.COM:8080"])] }
+
+/-- a request to Host example.com:8080 made by a page of another site -/
+def witReqCross : Req :=
+  { witReqSame with hdr := [(strBytes "Connection", [strBytes "Upgrade"]), (strBytes "Upgrade", [strBytes "websocket"]),
+            (strBytes "Origin", [strBytes "https://evil.example.org"])] }
+
+/-- instance of `same_origin_iff` (right to left): the Origin header is present, its host parses to
+    "Example.COM:8080" and folds to the Host, hence the request is accepted -/
+example : checkSameOrigin witReqSame (some (strBytes "Example.COM:8080")) = true :=
+  (same_origin_iff witReqSame (some (strBytes "Example.COM:8080"))).2 (Or.inr ⟨_, rfl, witFold_mixed⟩)
+/-- instance of `same_origin_iff`: the first disjunct is false for this request (the Origin header is there) -/
+example : witReqSame.values "Origin" ≠ [] := by decide +kernel
+
+/-- instance of `same_origin_iff` (left to right, contrapositive): a cross-origin request is refused,
+    both disjuncts of the right-hand side fail -/
+example : checkSameOrigin witReqCross (some (strBytes "evil.example.org")) = false := by
+  cases h : checkSameOrigin witReqCross (some (strBytes "evil.example.org")) with
+  | false => rfl
+  | true =>
+    rcases (same_origin_iff _ _).1 h with h0 | ⟨x, hx, hf⟩
+    · exact absurd h0 (by decide +kernel)
+    · cases hx; exact absurd hf (by decide +kernel)
+
+/-- instance of `same_origin_iff`: a request whose Origin does not parse (`oh = none`) is refused -/
+example : ¬ checkSameOrigin witReqCross none = true := by
+  intro h
+  rcases (same_origin_iff _ _).1 h with h0 | ⟨x, hx, _⟩
+  · exact absurd h0 (by decide +kernel)
+  · cases hx
+
+/-- instance of `same_origin_iff` (first disjunct): a non-browser client sending no Origin header is accepted -/
+example : checkSameOrigin { witReqSame with hdr := [(strBytes "Connection", [strBytes "Upgrade"])] } none = true :=
+  (same_origin_iff _ none).2 (Or.inl (by decide +kernel))
+
+end NonVacuity
+
 end WS.Props.C13
